@@ -90,10 +90,15 @@ inductive Num | none | int (neg : Bool) (digits : Line) | dec (neg : Bool) (ip f
 def allDigits (s : Line) : Bool := !s.isEmpty && s.all Char.isDigit
 
 /-- `_parse_number`: `N/A` ↦ none, commas ignored, with a `.` a decimal, otherwise an integer; anything else ↦ none (a warning) -/
+def splitSign : Line → Bool × Line
+  | '-' :: r => (true, r)
+  | r => (false, r)
+
 def parseNumber (s : Line) : Num :=
   if s == "N/A".toList then .none else
   let t := s.filter (· != ',')
-  let (neg, body) := match t with | '-' :: r => (true, r) | r => (false, r)
+  let neg := (splitSign t).1
+  let body := (splitSign t).2
   if body.contains '.' then
     let ip := body.takeWhile (· != '.')
     let fp := (body.dropWhile (· != '.')).drop 1
